@@ -771,6 +771,10 @@ impl<'a> UdpNhcRepr {
             ]);
 
             packet.set_checksum(chk_sum);
+        } else {
+            // The checksum is always carried in-line (see `header_len`); don't
+            // leave the C bit and the checksum octets as found in the buffer.
+            packet.set_checksum(0);
         }
     }
 }
